@@ -24,7 +24,7 @@ RULE = ("Systematic part: the whole (class, year, month) domain - 8 built-in cla
 ASSUMPTIONS = ["the oracle is the property's own wording of the exchange rules; exchange holidays are not modelled by the property"]
 REQUIRED_CATS = ["explicit-contracts:list", "explicit-contracts:ndarray", "explicit-contracts:series-permuted-index",
                  "explicit-contracts:series-filtered"]
-REQUIRED = ["C19:expiry-rule", "C19:cutoff-before-expiry", "C19:symbol", "C19:chain-ordered", "C19:chain-unique-symbols",
+REQUIRED = ["C19:survives-copy", "C19:expiry-rule", "C19:cutoff-before-expiry", "C19:symbol", "C19:chain-ordered", "C19:chain-unique-symbols",
             "C19:chain-events"]
 TECHNIQUE = "runtime monitoring: exhaustive enumeration of the calendar domain against a datetime-only reference"
 LEVEL_TEXT = ("Exhaustive enumeration of the per-contract domain (every class, year 1970-2099, month) against an independent "
@@ -80,6 +80,15 @@ def check_contract(ctx, cls, y, m):
     ctx.check("C19:cutoff-before-expiry", ltd < exp, cls=cls.__name__, year=y, month=m, last_trading=ltd, expiry=exp)
     sym = cls.__name__ + Future.month_codes[exp.month] + ("%02d" % (exp.year % 100))
     ctx.check("C19:symbol", c.symbol == sym and c.symbol_short == cls.__name__, got=c.symbol, want=sym)
+    # the contract after a copy / deep copy / pickle round trip (what TrackRecord.save, a checkpoint of an environment
+    # or a copied chain does to it) is the same contract: same dates, same symbol, same event
+    import copy
+    import pickle
+    for how, c2 in (("copy", copy.copy(c)), ("deepcopy", copy.deepcopy(c)), ("pickle", pickle.loads(pickle.dumps(c)))):
+        ev2 = c2.make_events()
+        ctx.check("C19:survives-copy", c2.expiry == exp and c2.last_trading_date == ltd and c2.symbol == c.symbol and c2 == c
+                  and hash(c2) == hash(c) and len(ev2) == 1 and ev2[0].time == exp,
+                  how=how, cls=cls.__name__, year=y, month=m, expiry=[c2.expiry, exp], last_trading=[c2.last_trading_date, ltd])
     return c
 
 
@@ -127,6 +136,16 @@ def check_chain(ctx, cls, start, end, month=0):
                   cls=cls.__name__, start=start, end=end, container=kind, got=[c.symbol for c in ch2.contracts][:12],
                   want=[c.symbol for c in want_cs][:12])
         ctx.cat("explicit-contracts:" + kind)
+    if len(cs) <= 200 and ctx.rng.random() < 0.3:
+        import copy
+        import pickle
+        for how, ch3 in (("deepcopy", copy.deepcopy(ch)), ("pickle", pickle.loads(pickle.dumps(ch)))):
+            ex3 = [c.expiry for c in ch3.contracts]
+            ev3 = ch3.make_events()
+            ctx.check("C19:survives-copy", ex3 == ex and [c.last_trading_date for c in ch3.contracts] == lt and
+                      [e.time for e in ev3] == ex and [c.symbol for c in ch3.contracts] == [c.symbol for c in cs],
+                      how=how, chain=True, cls=cls.__name__, start=start, end=end)
+        ctx.cat("chain-copied")
     syms = [c.symbol for c in cs]
     span_years = (ex[-1].year - ex[0].year) if cs else 0
     if span_years < 100:
